@@ -330,15 +330,17 @@ const (
 // do so. res is any Condition previously set for this operation, which can
 // cause Underflow to be set if, for example, Inexact is already set.
 func (d *Decimal) setExponent(c *Context, nd int64, res Condition, xs ...int64) Condition {
+	// The terms are int32-sized; it is their sum that must be within the limits
+	// (a long fraction is written with a large exponent part and vice versa).
 	var sum int64
 	for _, x := range xs {
-		if x > MaxExponent {
-			return SystemOverflow | Overflow
-		}
-		if x < MinExponent {
-			return SystemUnderflow | Underflow
-		}
 		sum += x
+	}
+	if sum > MaxExponent {
+		return SystemOverflow | Overflow
+	}
+	if sum < MinExponent {
+		return SystemUnderflow | Underflow
 	}
 	r := int32(sum)
 
